@@ -93,7 +93,7 @@ func (w *c20World) snapshot() map[*FakeKDC]kdcSnap {
 
 func CheckC20(l *Lab, verifDir string) int {
 	rep := NewReport("C20", l.Tier, l.Seed, "exploration", verifDir)
-	rep.Rule = "real gateway (kerberos enabled, race build) with generated krb5.conf; fake KDCs listen on TCP and UDP of the same loopback port with scripted behaviour {TCP: reply+close, reply+hold open, partial reply, accept+close, accept+silence, no listener} x {UDP: reply, silence, no socket}; requests built by the lab's own DER encoder ([MS-KKDCP] explicit tags): payload sizes {4,5,100,1400,4100,9000,30000,64000,65535,~128 KiB} (so UDP replies span one small datagram to nearly the largest one) (and 0-3 bytes), realm {absent, default, second configured, unknown}, 1-3 KDCs per realm, sequential and concurrent; malformed requests (method, missing / chunked length, > 128 KiB, DER mutations, trailing bytes). Oracle: every KDC that received anything received exactly the embedded message (TCP with its length prefix, UDP without), only KDCs of the addressed realm are contacted, a 200 body decodes (own DER decoder) to a reply one of that realm's KDCs produced for this very message (TCP reply as sent, UDP reply behind a 4-byte length), every request is answered before W=30 s, and refusals (405/411/413/400) contact no KDC. non-trivial = request answered; distinct = scenario x request class x status"
+	rep.Rule = "real gateway (kerberos enabled, race build) with generated krb5.conf; fake KDCs listen on TCP and UDP of the same loopback port with scripted behaviour {TCP: reply+close, reply+hold open, partial reply, accept+close, accept+silence, prefix then one byte every 700 ms, no listener} x {UDP: reply, silence, no socket}; requests built by the lab's own DER encoder ([MS-KKDCP] explicit tags): payload sizes {4,5,100,1400,4100,9000,30000,64000,65535,~128 KiB} (so UDP replies span one small datagram to nearly the largest one) (and 0-3 bytes), realm {absent, default, second configured, child realm of the default with a [domain_realm] mapping present, unknown}, 1-3 KDCs per realm, sequential and concurrent; malformed requests (method, missing / chunked length, > 128 KiB, DER mutations, trailing bytes). Oracle: every KDC that received anything received exactly the embedded message (TCP with its length prefix, UDP without), only KDCs of the addressed realm are contacted, a 200 body decodes (own DER decoder) to a reply one of that realm's KDCs produced for this very message (TCP reply as sent, UDP reply behind a 4-byte length), every request is answered before W=30 s, and refusals (405/411/413/400) contact no KDC. non-trivial = request answered; distinct = scenario x request class x status"
 	rep.Assume("the gateway's own KDC timeout is 5 s; an answer later than 30 s counts as no answer (a correct implementation answers within the 5 s timeout per contacted KDC)")
 	type scenario struct {
 		name string
@@ -113,8 +113,14 @@ func CheckC20(l *Lab, verifDir string) int {
 		{"accept-close-only", map[string][]KDCBehaviour{"VERIF.TEST": {{"accept-close", "none"}}, "OTHER.TEST": {good}}},
 		{"partial-only", map[string][]KDCBehaviour{"VERIF.TEST": {{"partial-close", "silence"}}, "OTHER.TEST": {good}}},
 	}
+	scenarios = append(scenarios, scenario{"trickle-only", map[string][]KDCBehaviour{"VERIF.TEST": {{"trickle", "none"}}, "OTHER.TEST": {good}}})
+	// a child realm with its own KDC in every scenario (the host-to-realm mapping of krb5.conf
+	// would send ".verif.test" hosts to the parent realm; a realm named in a request is not a host)
+	for i := range scenarios {
+		scenarios[i].beh["SUB.VERIF.TEST"] = []KDCBehaviour{good}
+	}
 	var wg sync.WaitGroup
-	sem := make(chan struct{}, 4)
+	sem := make(chan struct{}, 5)
 	for si, sc := range scenarios {
 		wg.Add(1)
 		sem <- struct{}{}
@@ -160,7 +166,7 @@ func c20Scenario(l *Lab, rep *Report, w *c20World, name string, si int) {
 	if l.Quick() {
 		sizes = []int{4, 100, 1400, 4100, 30000, 128*1024 - 64}
 	}
-	realmsReq := []string{"", "VERIF.TEST", "OTHER.TEST", "NOPE.TEST"}
+	realmsReq := []string{"", "VERIF.TEST", "OTHER.TEST", "NOPE.TEST", "SUB.VERIF.TEST"}
 	type reqt struct {
 		class   string
 		realm   string
@@ -170,7 +176,7 @@ func c20Scenario(l *Lab, rep *Report, w *c20World, name string, si int) {
 	id := 0
 	for _, sz := range sizes {
 		for _, rl := range realmsReq {
-			if (name == "all-silent" || name == "partial-only") && sz > 100 && rl != "OTHER.TEST" {
+			if (name == "all-silent" || name == "partial-only" || name == "trickle-only") && sz > 100 && rl != "OTHER.TEST" && rl != "SUB.VERIF.TEST" {
 				continue // each costs the gateway's own 5 s timeout
 			}
 			id++
